@@ -228,8 +228,11 @@ def _s1(ctx):
             elif m == 'forget_val':
                 if x.ext_calls(r'mem::forget$'):
                     row[m] = 'forget'
-                elif any(n.kind == 'block' and n.id in g.live() and n.term['k'] == 'drop' and n.term['dty']['k'] == 'param' for n in g.nodes):
+                elif any(n.kind == 'block' and n.id in g.live() and n.term['k'] == 'drop' and n.term['dty']['k'] == 'param' for n in g.nodes) or \
+                        any(g.strip(a_) == ('param', g.root_inst, 1) for n_ in x.ext_calls(r'mem::drop$') for a_ in g.call_args(n_)[:1]):
+                    # dropped at the end of the scope, or by an explicit `drop(v)`
                     row[m] = 'drop'
+
                 else:
                     row[m] = 'leak?'
             elif m == 'drop_in_place':
@@ -284,6 +287,8 @@ def _s3(ctx):
             continue
         if not re.match(r'^(<&?(\'a )?)?(broadcast|mpmc)::', name):
             continue
+        if name in F.fresh and ctx.revcg().get(name):
+            continue   # a private helper introduced by a refactoring: part of the wrappers that call it
         st = f.get('impl_self') or {}
         adt = st.get('adt') or (st.get('inner') or {}).get('adt')
         if not adt:
@@ -302,6 +307,14 @@ def _s3(ctx):
             if t['k'] != 'call' or 'fn' not in t:
                 continue
             nm = t.get('resolved') or t['fn']
+            if nm in F.fresh and re.match(r'^(<&?(\'a )?)?(broadcast|mpmc)::', nm):
+                # a private constructor / helper of the wrapper layer itself: what it calls counts as called here
+                sub_ = [b2['term'].get('resolved') or b2['term'].get('fn') for b2 in F.fns[nm]['blocks']
+                        if not b2['cleanup'] and b2['term']['k'] == 'call' and 'fn' in b2['term']]
+                for nm2 in sub_:
+                    if re.match(r'^(<&?)?multiqueue::', nm2 or ''):
+                        inner.append(short_fn(nm2).split('::')[-1])
+                continue
             if nm in F.fresh:
                 # a helper that does not exist in the reference tree stands for the reference function(s) whose code
                 # it holds (the queue-level functions that call it)
